@@ -18,6 +18,9 @@ universe export; part his: mechanism B, histories).
    for its AST (a MapSpec is an immutable value: caches inside the object may never show).
 5. An arrow count other than one (MapSpecSem.TextMustReject, ArrowMutants: chained `a -> b -> c`, trailing / leading /
    doubled arrow, ...) is excepted from the leniency of 3: such texts must be rejected, with any whitespace.
+7. shape() takes MAPPINGS keyed by name: MapSpecSem.Presentations enumerates every insertion order of input_shapes x
+   internal_shapes (LawShapeByName: the outcome is the same for all of them, also for mismatching shapes and for the
+   shapes of two inputs exchanged); the harness builds exactly these dicts, entry by entry, and calls shape() on each.
 6. Mechanism C: seeded random specs larger than the universes are run through the real code, the observations
    are recorded and TLC judges them with the same operators (part rec).
 
@@ -48,7 +51,7 @@ COLON = ":"
 ALL = -1
 RAISED = -2  # recorded in place of a key when the call raised
 
-INVARIANTS = ("InvUniverse InvRoundTrip InvWhitespace InvArrow InvRename InvAddAxes InvShape InvOutputKey InvInputKeys "
+INVARIANTS = ("InvUniverse InvRoundTrip InvWhitespace InvArrow InvRename InvAddAxes InvShape InvShapeByName InvOutputKey InvInputKeys "
               "InvRenameDenotes InvAddAxesDenotes InvHistory Emit")
 
 CFG = """SPECIFICATION Spec
@@ -179,6 +182,20 @@ def call(fn, *a, **k) -> tuple[str, Any]:
         return f"raise:{type(e).__name__}", str(e)[:200]
 
 
+def mappings(pres: dict) -> tuple[dict, dict | None]:
+    """The real arguments of shape() for one exported presentation (MapSpecSem.Presentations): dicts whose insertion
+    order is the order of the entries; no internal entries = internal_shapes not passed."""
+    input_shapes = {}
+    for e in pres["pin"]:
+        input_shapes[e["name"]] = tuple(e["shape"])
+    internal = None
+    if pres["pint"]:
+        internal = {}
+        for e in pres["pint"]:
+            internal[e["name"]] = tuple(e["shape"])
+    return input_shapes, internal
+
+
 def _key_py(key: list[int]) -> tuple:
     return tuple(slice(None) if v == ALL else v for v in key)
 
@@ -229,26 +246,40 @@ def cmp_sem(c: dict, o: dict, seed: int, res: Result) -> None:
     if how != "value" or not (back == ms) or decode(back) != ast:
         res.bad({"check": "roundtrip", "fn": "MapSpec.from_string", "ws": "canonical", "got": how if how != "value" else "wrong_ast",
                  "scoped": f["scoped"]}, f"from_string(str(m)) != m for {ast_str(ast)}", c, o, text=str(ms))
-    # shape
+    # shape: the arguments are MAPPINGS; out.calls presents them in every insertion order (MapSpecSem.Presentations,
+    # the first in the order of the MapSpec) and out.shape is the expected outcome of every one of these calls
     in_names = [a["name"] for a in ast["ins"]]
-    input_shapes = {n: tuple(s) for n, s in zip(in_names, c["insh"])}
-    internal = {a["name"]: tuple(c["internal"]) for a in ast["outs"]} if (c["internal"] or f["internal_axes"]) else None
-    how, got = call(ms.shape, input_shapes, internal)
-    res.calls += 1
-    ssig = {"check": "shape", "fn": "MapSpec.shape", "mut": c["mut"], "err": sh["err"], "internal_axes": f["internal_axes"],
-            "n_inputs": f["n_inputs"]}
-    if sh["ok"]:
-        want = (tuple(sh["shape"]), tuple(sh["mask"]))
-        if how != "value":
-            res.bad({**ssig, "expect": "value", "got": how}, f"shape() raised {how} ({got}), expected {want} for {ast_str(ast)} {input_shapes}", c, o)
-            return
-        if got != want:
-            res.bad({**ssig, "expect": "value", "got": "wrong_value"}, f"shape() = {got}, expected {want} for {ast_str(ast)} {input_shapes}", c, o)
-            return
-    else:
-        if how == "value":
+    if not o["calls"]:
+        raise MachineryError(f"sem case {res.key}: no presentation of the shape() arguments exported")
+    failed = False
+    for q, pres in enumerate(o["calls"]):
+        input_shapes, internal = mappings(pres)
+        how, got = call(ms.shape, input_shapes, internal)
+        res.calls += 1
+        ssig = {"check": "shape", "fn": "MapSpec.shape", "mut": c["mut"], "err": sh["err"], "internal_axes": f["internal_axes"],
+                "n_inputs": f["n_inputs"], "order": "mapspec" if q == 0 else ("inputs_permuted" if not pres["inorder"] else "outputs_permuted")}
+        if sh["ok"]:
+            want = (tuple(sh["shape"]), tuple(sh["mask"]))
+            if how != "value":
+                res.bad({**ssig, "expect": "value", "got": how},
+                        f"shape({input_shapes}, {internal}) raised {how} ({got}), expected {want} for {ast_str(ast)}", c, o, call=q)
+                failed = True
+            elif got != want:
+                res.bad({**ssig, "expect": "value", "got": "wrong_value"},
+                        f"shape({input_shapes}, {internal}) = {got}, expected {want} for {ast_str(ast)}", c, o, call=q)
+                failed = True
+        elif how == "value":
             res.bad({**ssig, "expect": "raise", "got": "value"},
-                    f"shape() = {got}, expected a {sh['err']} error for {ast_str(ast)} {input_shapes} internal={c['internal']}", c, o)
+                    f"shape({input_shapes}, {internal}) = {got}, expected a {sh['err']} error for {ast_str(ast)}", c, o, call=q)
+            failed = True
+        elif not how.startswith("raise:ValueError"):       # "raising on rank or zipped-dimension mismatch": the documented refusal
+            res.bad({**ssig, "expect": "raise", "got": how},
+                    f"shape({input_shapes}, {internal}) raised {how} ({got}), expected the {sh['err']} refusal (ValueError) for {ast_str(ast)}",
+                    c, o, call=q)
+            failed = True
+        if failed:
+            break          # one witness per case
+    if failed or not sh["ok"]:
         return
     # keys for every linear index
     ext = tuple(o["ext"])
@@ -681,7 +712,15 @@ def random_spec(rng: random.Random) -> dict:
         insh[x] = insh[x][:-1] if rng.random() < 0.5 else insh[x] + [2]
     elif internal and mut < 0.27:
         internal = internal[:-1]
-    return {"ms": {"ins": ins, "outs": outs}, "insh": insh, "internal": internal}
+    elif nin >= 2 and mut < 0.37:               # the shapes of two inputs exchanged
+        x, y = rng.sample(range(nin), 2)
+        insh[x], insh[y] = insh[y], insh[x]
+    # the mappings shape() is called with, entry by entry in a random insertion order (MapSpecSem: a presentation)
+    pin = [{"name": a["name"], "shape": sh} for a, sh in zip(ins, insh)]
+    pint = [{"name": a["name"], "shape": internal} for a in outs]
+    rng.shuffle(pin)
+    rng.shuffle(pint)
+    return {"ms": {"ins": ins, "outs": outs}, "insh": insh, "internal": internal, "pin": pin, "pint": pint}
 
 
 def record_observations(spec: dict, rid: int, rng: random.Random, ls: list[int] | None = None) -> dict:
@@ -689,13 +728,12 @@ def record_observations(spec: dict, rid: int, rng: random.Random, ls: list[int] 
     ast = spec["ms"]
     idents, scoped = names_lexicon(ast)
     rec = {"id": rid, "ms": ast, "idents": idents, "scoped": scoped, "insh": spec["insh"], "internal": spec["internal"],
-           "built": True, "shape_ok": False, "shape": [], "mask": [], "obs": []}
+           "pin": spec["pin"], "pint": spec["pint"], "built": True, "shape_ok": False, "shape": [], "mask": [], "obs": []}
     how, ms = call(build, ast)
     if how != "value":
         rec["built"] = False
         return rec
-    input_shapes = {a["name"]: tuple(s) for a, s in zip(ast["ins"], spec["insh"])}
-    internal = {a["name"]: tuple(spec["internal"]) for a in ast["outs"]}
+    input_shapes, internal = mappings(spec)     # dicts in the recorded insertion order
     how, got = call(ms.shape, input_shapes, internal)
     if how == "value":
         shape, mask = got
@@ -779,6 +817,15 @@ def selftest_comparator(ctx: Ctx, lines: list[str]) -> None:
             lambda r: r["o"]["shape"].update(ok=True, shape=[1], mask=[True]), "shape")
     corrupt("expected-value corruption: shape value -> shape error",
             lambda r: is_sem_ok(r), lambda r: r["o"]["shape"].update(ok=False, err="dim"), "shape")
+    def diff_rank_calls(r: dict) -> bool:   # a permuted presentation with two entries of different rank
+        return is_sem_ok(r) and len(r["o"]["calls"]) >= 2 and len({len(e["shape"]) for e in r["o"]["calls"][-1]["pin"]}) >= 2
+
+    def e_pres(r: dict) -> None:            # in the LAST (permuted) presentation only: two shapes change their names
+        pin = sorted(r["o"]["calls"][-1]["pin"], key=lambda e: len(e["shape"]))
+        pin[0]["shape"], pin[-1]["shape"] = pin[-1]["shape"], pin[0]["shape"]
+
+    corrupt("exported-argument corruption: two shapes exchanged in the last permuted presentation of one case",
+            diff_rank_calls, e_pres, "shape")
     corrupt("expected-value corruption: one token of str(m)",
             lambda r: r["c"]["kind"] == "syn" and "," in r["o"]["toks"], e_tok, "str")
     corrupt("expected-value corruption: one name of a renamed MapSpec",
@@ -832,7 +879,8 @@ def run(ctx: Ctx) -> None:
             const[k] = int(os.environ[f"C08_{k}"])
     shards = dict(tier["shards"])
     ctx.rule = ("case = one element of a universe defined in MC_MapSpecSem.tla: sem = (MapSpec structure, index sizes, ':' sizes"
-                " [, one mutated shape]) with ALL linear indices compared; syn = MapSpec under 3 naming schemes x 1-2 outputs with 7"
+                " [, one mutated shape | the shapes of two inputs exchanged]) with shape() called on the input_shapes / internal_shapes"
+                " mappings in EVERY insertion order and ALL linear indices compared; syn = MapSpec under 3 naming schemes x 1-2 outputs with 7"
                 " whitespace renderings, 4-6 renames, 7 add_axes calls; bad = AST mutant per documented rejection; tok = token-sequence"
                 " mutant; his = history of <= HisLen operations (read attributes / shape + all keys / from_string(str) / add_axes /"
                 " rename, in every order) on one object and the objects derived from it, every object observed completely at the"
@@ -843,8 +891,11 @@ def run(ctx: Ctx) -> None:
         "TLC and the JSON encoding of ASTs/shapes/keys are trusted; Python renders tokens to text, builds objects and compares",
         "lexical classes (identifier / scope.identifier) are Python's str.isidentifier; the model's lexicon is checked against it",
         "canonical index naming and (from SortFrom inputs on) non-decreasing input order cut symmetric copies of structures",
-        "shape mismatches are generated by mutating ONE input shape (or the internal sizes) of the sizes-1,2,3 assignment, not by"
-        " enumerating all shape tuples",
+        "shape mismatches are generated by mutating ONE input shape (or the internal sizes), or exchanging the shapes of two inputs,"
+        " of the sizes-1,2,3 assignment, not by enumerating all shape tuples",
+        "a shape mismatch must be refused with the documented ValueError (an IndexError / KeyError escaping from shape() is no refusal)",
+        "mappings are Python dicts; their insertion orders are enumerated by MapSpecSem.Presentations (all permutations of the"
+        " inputs x of the outputs); part rec uses one seeded random order per spec",
         "don't-care (MapSpecSem.Regular): duplicate array names, an index repeated inside one array, arrays without axes",
         "token sequences outside the grammar and irregular specs: only 'rejected, or accepted as a well-formed MapSpec' (TLC part acc);"
         " except an arrow count other than one (MapSpecSem.TextMustReject): must be rejected",
@@ -978,7 +1029,7 @@ def replay(rep: dict) -> int:
         if "record" in w:
             ctx = ctx or Ctx(PROPERTY, "quick", 0)
             ctx.findings = []
-            rec = record_observations({"ms": w["record"]["ms"], "insh": w["record"]["insh"], "internal": w["record"]["internal"]},
+            rec = record_observations({k: w["record"][k] for k in ("ms", "insh", "internal", "pin", "pint")},
                                       0, random.Random(0), ls=[o["l"] for o in w["record"]["obs"]])
             v = tlc_judge(ctx, "rec", [rec], TIERS["quick"]["const"], "replay")
             print("TLC verdict on the re-recorded observations:", v[0])
